@@ -79,13 +79,13 @@ type c10S5 struct {
 }
 
 //verif:opt maxpaths=30000 reach=accepted,rejected
-func Harness_C10_um_int() { c10Diff[int](1 + vChoice("len", 6), true) }
+func Harness_C10_um_int() { c10Diff[int](1 + vChoice("len", 6+3*vTier()), true) }
 
 //verif:opt maxpaths=30000 reach=accepted,rejected
 func Harness_C10_um_bool() { c10Diff[bool](1 + vChoice("len", 4), true) }
 
 //verif:opt maxpaths=30000 reach=accepted,rejected
-func Harness_C10_um_bytes() { c10Diff[[]byte](1 + vChoice("len", 5), true) }
+func Harness_C10_um_bytes() { c10Diff[[]byte](1 + vChoice("len", 5+2*vTier()), true) }
 
 //verif:opt maxpaths=30000 reach=accepted,rejected
 func Harness_C10_um_string() {
@@ -102,10 +102,10 @@ func Harness_C10_um_string() {
 func Harness_C10_um_bigint() { c10Diff[*big.Int](1 + vChoice("len", 6), true) }
 
 //verif:opt maxpaths=30000 reach=accepted,rejected
-func Harness_C10_um_ints() { c10Diff[[]int](2 + vChoice("len", 6), true) }
+func Harness_C10_um_ints() { c10Diff[[]int](2 + vChoice("len", 6+2*vTier()), true) }
 
 //verif:opt maxpaths=30000 reach=accepted,rejected
-func Harness_C10_um_s1() { c10Diff[c10S1](2 + vChoice("len", 7), true) }
+func Harness_C10_um_s1() { c10Diff[c10S1](2 + vChoice("len", 7+2*vTier()), true) }
 
 //verif:opt maxpaths=30000 reach=accepted,rejected
 func Harness_C10_um_s2() { c10Diff[c10S2](2 + vChoice("len", 7), false) }
